@@ -403,7 +403,7 @@ func drawWorld02(r *rng.R, lib *library) *Case {
 		w.Models = append(w.Models, dm.spec)
 	}
 	shareProto(r, &w, &models)
-	w.Collect = r.Chance(1, 25)
+	w.Collect = r.Chance(1, 40)
 	nt := 1 + r.Intn(3)
 	total := r.Range(2, 10)
 	if r.Chance(1, 60) {
